@@ -305,15 +305,25 @@ pub fn c18(tier: Tier, seed: u64) -> Verdict {
 // ------------------------------------------------------------------------------------------ C13
 
 fn shrink_grid() -> Vec<History> {
-    let caps = [17usize, 18, 24, 31, 32, 33, 48, 64, 100, 120, 256, 1000];
+    // the last six capacities are "large": thresholds a size-dependent shortcut could have (4 KiB pages, 64 KiB, 1 MiB)
+    let caps = [17usize, 18, 24, 31, 32, 33, 48, 64, 100, 120, 256, 1000, 4096, 5000, 65_536, 70_000, 140_000, 1_040_000];
     let mut out = Vec::new();
     for &cap in &caps {
-        let mut lens: Vec<usize> = vec![0, 1, 8, 15, 16, 17, cap / 3, cap / 2, (cap * 2) / 3, cap - 2, cap - 1, cap];
+        let large = cap > 1000;
+        let mut lens: Vec<usize> = if large {
+            vec![0, 16, 17, cap / 3, cap / 2 - 1, cap / 2 + 1, 4095, 4097, 65_535, 65_537, cap - 1, cap]
+        } else {
+            vec![0, 1, 8, 15, 16, 17, cap / 3, cap / 2, (cap * 2) / 3, cap - 2, cap - 1, cap]
+        };
         lens.retain(|l| *l <= cap);
         lens.sort_unstable();
         lens.dedup();
         for &len in &lens {
-            let mut ms: Vec<usize> = vec![0, len.saturating_sub(1), len, len + 1, 15, 16, 17, cap - 1, cap, cap + 1, (len + cap) / 2, usize::MAX, 1 << 56, 1 << 60];
+            let mut ms: Vec<usize> = if large {
+                vec![0, len, len + 1, 16, 17, cap / 2, cap - 1, (len + cap) / 2, usize::MAX]
+            } else {
+                vec![0, len.saturating_sub(1), len, len + 1, 15, 16, 17, cap - 1, cap, cap + 1, (len + cap) / 2, usize::MAX, 1 << 56, 1 << 60]
+            };
             ms.sort_unstable();
             ms.dedup();
             for &m in &ms {
@@ -379,7 +389,7 @@ pub fn c13(tier: Tier, seed: u64) -> Verdict {
         tier,
         seed,
         "exploration",
-        "exhaustive grid capacity x length x min_capacity x sharing (unique, shared, shared with shorter handle, 3 handles, unshared again) x try/plain, plus proptest histories biased to shrink/reserve/clone; non-trivial = a shrink on a heap string whose capacity exceeds max(len, m); distinct history digests",
+        "exhaustive grid capacity (17 ... 1000, and 4 KiB ... 1 MiB) x length x min_capacity x sharing (unique, shared, shared with shorter handle, 3 handles, unshared again) x try/plain, plus proptest histories biased to shrink/reserve/clone; non-trivial = a shrink on a heap string whose capacity exceeds max(len, m); distinct history digests",
         ASSUME_HIST,
         &merged,
         t0.elapsed().as_secs_f64(),
